@@ -174,3 +174,28 @@ Theorem C03_number_formats :
      length (le_bytes k n) = k /\ le_value (le_bytes k n) = twos k n).
 Proof. exact number_formats. Qed.
 Print Assumptions C03_number_formats.
+
+(* audit C03.2: ApplicationException::decode (the model of Thrift/AppMsg.v) on EVERY spec-legal encoding
+   [l] of an exception struct -- [legal p v l]: the specification's encoder under SOME choice at every
+   point the specifications leave to the writer (long / short compact field headers, the byte of a
+   binary `true`, long / short list headers, bool element codes, ...) -- with fields 1 (string) and 2
+   (i32) in ANY order and any further well-typed fields around them: (message, kind), last occurrence
+   winning, defaults for absent ones; consumes exactly [l], reader context restored.  Binary and
+   compact (the specifications do not cover binary-LE).  C07_app_exception_tolerant is the instance
+   for the one legal encoding pilota writes. *)
+From PV Require Import Thrift.Skip Thrift.AppMsg Proofs.SkipP Proofs.SpecTreeP Proofs.FieldLoopP Proofs.AppLegalP.
+Theorem C03_app_exception_legal : forall p fs l,
+  p <> PBinaryLE -> legal p (VStruct fs) l -> Forall app_field_ok fs ->
+  forall fuel r rcx, (vsize (VStruct fs) <= fuel)%nat -> idle rcx ->
+    app_decode p fuel (mkS (l ++ r) rcx) = Ok (app_pick fs app_default_msg 0, mkS r rcx).
+Proof. exact app_exception_legal. Qed.
+Print Assumptions C03_app_exception_legal.
+
+(* the exception proper, message and kind in either order *)
+Theorem C03_app_exception_legal_12 : forall p m k l,
+  p <> PBinaryLE ->
+  legal p (VStruct [(1, VBinary m); (2, VI32 k)]) l \/ legal p (VStruct [(2, VI32 k); (1, VBinary m)]) l ->
+  forall fuel r rcx, (5 <= fuel)%nat -> idle rcx ->
+    app_decode p fuel (mkS (l ++ r) rcx) = Ok ((m, k), mkS r rcx).
+Proof. exact app_exception_legal_12. Qed.
+Print Assumptions C03_app_exception_legal_12.
